@@ -18,7 +18,7 @@ CLAUSES = ("FileEnd:second-run-reports-a-change", "FileEnd:second-run-modified-a
 
 def run(chk: Check) -> None:
     vectors = progspace.enumerate_vectors(chk)
-    scenarios = progspace.build_batches(chk, vectors=vectors, seeds_per_codemod=chk.pick(3, 10), vectors_per_seed=chk.pick(4, 30), second_run=True)
+    scenarios = progspace.build_batches(chk, with_extra=True, vectors=vectors, seeds_per_codemod=chk.pick(3, 10), vectors_per_seed=chk.pick(4, 30), second_run=True)
     scenarios += progspace.build_sast(chk, max_per_codemod=chk.pick(2, 6), second_run=True)
     results, verdicts = progspace.run_batches(chk, scenarios)
     for scn, r in zip(scenarios, results):
